@@ -1,5 +1,8 @@
 CFG = {
-    "jobs": lambda tier: [J("prod", "c07")],
+    "jobs": lambda tier: [J("prod", "c07"),
+                          # work package c07rng: model-compared rows (coq/theories/RunC07.v)
+                          J("scaled", "c07-model", imports="Base Stream Inst Run RunWRows RunC07", shard=8)],
+    "run_modules": ["RunWRows", "RunC07"],
     "rule": "production build: (1) groups of 4 archives built in one process from IDENTICAL inputs (same files, same recipient keys) plus 2 built in "
             "fresh processes: symmetric key, archive nonce and ephemeral public key pairwise distinct, key not in the header; (2) archives "
             "(encrypt, encrypt+compress) whose contents and names carry random 24-byte markers: no 10-byte window of any marker after the header; "
@@ -17,3 +20,25 @@ CFG = {
     "level_note": "partial: logic of key wrapping / candidate loop proved; freshness and secrecy are runtime/cryptographic and only observed by the correspondence job; "
                   "trusted: Coq kernel + vm_compute, tools/src2v.py, the Rust harness",
 }
+CFG["rule"] += ("; c07-model (scaled build, model-compared): (a) 16 (quick) / 80 (thorough) ENCRYPT-only archives of 1-3 files written in 1-5 pieces of boundary sizes around "
+                "CIPHERBUF / CHUNK with 0-2 flush calls before every writer call: the bytes after the header == EncLayer.enc_format, under the concrete AES-256-GCM, of the Writer model's "
+                "block stream (oracle, aes-gcm crate only: every byte after the header lies in a chunk that authenticates under the configuration's key and nonce ++ BE32(i); names and "
+                "contents are in the decrypted stream and no 8-byte window of a name is in the body); (b) 10 / 40 seeds: ChaChaRng::from_seed(seed).random::<[u8;32]>(), "
+                ".random::<[u8;8]>() and fill_bytes(32) of a fresh generator == Fresh.key_of / nonce_of / eph_of under the concrete ChaCha20 (oracle: low bytes of the raw output words); "
+                "(c) builder-path matrix: 14 fixed + 6 / 40 random sequences of enable_layer / disable_layer / set_layers / add_public_keys (0-2 keys) / with_compression_level (incl. "
+                "out-of-range) x {new(), default()}: layer bits, encryption_key(), encryption_nonce() and check() == the builders of Fresh.v folded over the sequence (oracle: key and nonce "
+                "unchanged by the builders, not all-zero, pairwise different between all configurations)")
+CFG["explanation"] += ("; work package c07rng: randomness is an explicit resource (Fresh.v: a state-passing machine over entropy : nat -> bytes, one global request counter, and the ChaCha20 "
+                       "expander): C07_secrets_are_entropy_functions (for ANY trace of processes / threads / builder paths the key and nonce of an archive are fixed functions of one OS "
+                       "request, the ephemeral scalar of another, all requests pairwise distinct), C07_fresh_if_entropy_fresh (no repeated key / nonce / ephemeral public key if the OS does "
+                       "not repeat and the expansions of the seeds that occurred do not collide), C07_builders_do_not_touch_secrets / C07_builder_sequence_keeps_secrets; nothing in clear: "
+                       "C07_body_is_keystream_masked(_layer) (any calls, flush anywhere, any cuts: the body is enc_format of the layer plaintext), C07_write_emits_cipher_only, "
+                       "C07_flush_emits_nothing, C07_enc_format_byte, C07_plain_windows_need_keystream_coincidence (an occurrence of a plaintext window needs exactly keystream = window XOR "
+                       "plaintext there); Tie A (tools/src2v3_fresh.py -> gen/Src3.v, SrcTie3Fresh.v): draw order in EncryptionConfig::default (one from_os_rng, key then nonce), a generator "
+                       "per to_persistent call, ephemeral = first fill_bytes of it, no stored generator, exactly two from_os_rng sites, configurations not clonable and consumed by "
+                       "from_config, flush only forwards, every inner.write_all argument of the encryption writer is a cipher output or a tag")
+CFG["assumptions"] += ["c07rng hypotheses of C07_fresh_if_entropy_fresh (explicit premises, stated for the B requests of the period considered): the OS generator returns pairwise different seeds; "
+                       "key_of / nonce_of / eph_of (ChaCha20 low bytes of words 0-31 / 32-39, bytes 0-31) do not collide on the seeds that occurred; pubk does not collide on the scalars drawn",
+                       "c07rng: C07_plain_windows_need_keystream_coincidence exhibits the event an occurrence needs; that it is improbable is AES-CTR's secrecy, not proved",
+                       "c07rng not modelled: fork() of a process holding a live configuration, getrandom failure (from_os_rng panics), memory disclosure; the bit-level ChaCha20 / rand "
+                       "sampling is bound to the code by job c07-model (b) only"]
